@@ -77,7 +77,7 @@ def _eval(args) -> dict:
         prog = Program(root=root, sources={rel: new})
         scratch = Run(prop=pid, quiet=True, write_evidence=False)
         checks.REGISTRY[pid](scratch, prog)
-        v = scratch.violations()
+        v = scratch.new_violations()
         return {"operator": op, "site": desc, "reported": bool(v), "by": f"{v[0].rule}@{v[0].construct}" if v else ""}
     except Exception as e:  # noqa: BLE001
         return {"operator": op, "site": desc, "reported": False, "by": f"crash: {type(e).__name__}: {e}"}
@@ -215,11 +215,12 @@ def _meta_eval(args) -> dict:
         checks.REGISTRY[pid](scratch, prog)
         from geolint.report import PROVEN, UNDECIDED
 
-        return {"operator": op, "sites": sites, "violations": [f"{o.rule}@{o.construct}: {o.stmt[:60]}" for o in scratch.violations()],
+        return {"operator": op, "sites": sites, "violations": [f"{o.rule}@{o.construct}: {o.stmt[:60]}" for o in scratch.new_violations()],
                 "errors": scratch.errors[:3], "proven": sum(1 for o in scratch.obligations if o.verdict == PROVEN),
-                "undecided": sum(1 for o in scratch.obligations if o.verdict == UNDECIDED)}
+                "undecided": sum(1 for o in scratch.obligations if o.verdict == UNDECIDED),
+                "undecided_why": sorted({f"{o.rule}: {o.message[:90]}" for o in scratch.obligations if o.verdict == UNDECIDED})[:6]}
     except Exception as e:  # noqa: BLE001
-        return {"operator": op, "sites": 0, "violations": [], "errors": [f"crash: {type(e).__name__}: {e}"], "proven": 0, "undecided": 0}
+        return {"operator": op, "sites": 0, "violations": [], "errors": [f"crash: {type(e).__name__}: {e}"], "proven": 0, "undecided": 0, "undecided_why": []}
 
 
 def run_metamorphic(run: Run, prog: Program) -> None:
@@ -233,7 +234,7 @@ def run_metamorphic(run: Run, prog: Program) -> None:
     jobs = [(prog.root, run.prop, op) for op in ops]
     with ProcessPoolExecutor(max_workers=min(16, os.cpu_count() or 1, len(jobs))) as ex:
         results = list(ex.map(_meta_eval, jobs))
-    base_viol = {f"{o.rule}@{o.construct}: {o.stmt[:60]}" for o in run.violations()}
+    base_viol = {f"{o.rule}@{o.construct}: {o.stmt[:60]}" for o in run.new_violations()}
     base_proven = sum(1 for o in run.obligations if o.verdict == PROVEN)
     unstable = []
     for r in results:
@@ -244,7 +245,8 @@ def run_metamorphic(run: Run, prog: Program) -> None:
         "what": "rules of this property re-run on behaviour-preserving rewrites of the whole package (geolint/metamorph.py); a stable rule "
                 "gives no violation that the tree as written does not give. `proven`/`undecided` show how much of the proof survives the rewrite",
         "proven_on_tree_as_written": base_proven,
-        "per_operator": {r["operator"]: {"sites_rewritten": r["sites"], "violations": len(r["violations"]), "proven": r["proven"], "undecided": r["undecided"]}
+        "per_operator": {r["operator"]: {"sites_rewritten": r["sites"], "violations": len(r["violations"]), "proven": r["proven"], "undecided": r["undecided"],
+                                               **({"undecided_because": r["undecided_why"]} if r["undecided"] else {})}
                          for r in results},
         "unstable": unstable,
     }
